@@ -37,7 +37,9 @@ def main():
         p2 = sh(["/venv/bin/python", demo], cwd=pat, env=dict(env, PYTHONPATH=pat), timeout=300)
         rec["demo_patched_exit"] = p2.returncode
         rec["demo_patched_output"] = (p2.stdout + p2.stderr)[-600:]
-        ok = rec["demo_clean_exit"] == 0 and rec["patch_applies"] and rec["suite_ok_with_patch"] and rec["demo_patched_exit"] != 0
+        benign = bool(meta.get("benign"))
+        ok = rec["demo_clean_exit"] == 0 and rec["patch_applies"] and rec["suite_ok_with_patch"] and \
+            ((rec["demo_patched_exit"] == 0) if benign else (rec["demo_patched_exit"] != 0))
         rec["kept"] = ok
         print(json.dumps({k: v for k, v in rec.items() if k != "demo_patched_output"}))
         if not ok:
